@@ -48,6 +48,11 @@ type Case struct {
 	// the client's state machine must answer each (it is a state machine like the server's).
 	PeerDWRs int    `json:"peer_dwrs,omitempty"`
 	Plans    []Plan `json:"plans"` // one per fresh DWR; the case ends after the last one (or when the client gives up)
+	// AppTraffic (bit set): application traffic goes on while the watchdog runs, every third of a
+	// RetransmitInterval. 1: the peer sends application answers (CCA, success) nobody asked for;
+	// 2: the peer sends application requests (RAR) that a handler of the client answers with success;
+	// 4: the client application writes requests (CCR) of its own. None of it answers a DWR.
+	AppTraffic int `json:"app_traffic,omitempty"`
 }
 
 func (c Case) w() time.Duration { return time.Duration(c.WatchdogMs) * time.Millisecond }
@@ -107,6 +112,9 @@ func runOnce(c Case) result {
 			}
 		}
 	}()
+	if c.AppTraffic&2 != 0 {
+		machine.HandleFunc("RAR", func(cc diam.Conn, m *diam.Message) { m.Answer(2001).WriteTo(cc) })
+	}
 	cli := &sm.Client{Handler: machine, MaxRetransmits: uint(c.MaxRetransmits), RetransmitInterval: c.r(),
 		EnableWatchdog: true, WatchdogInterval: c.w(),
 		AuthApplicationID: []*diam.AVP{diam.NewAVP(avp.AuthApplicationID, avp.Mbit, 0, datatype.Unsigned32(4))}}
@@ -197,8 +205,10 @@ func runOnce(c Case) result {
 	}
 	done := make(chan res, 1)
 	go func() { cc, err := cli.NewConn(mc, "peer"); done <- res{cc, err} }()
+	var r0 res
 	select {
 	case r := <-done:
+		r0 = r
 		if r.err != nil {
 			mc.Close()
 			return result{fail: ev.Failf("harness-handshake", "handshake failed: %v", r.err)}
@@ -209,6 +219,39 @@ func runOnce(c Case) result {
 	}
 	handshook := time.Now()
 	defer func() { mc.FeedEOF(); mc.Close(); pending.Wait() }()
+	if c.AppTraffic != 0 {
+		trafficStop := make(chan struct{})
+		var traffic sync.WaitGroup
+		defer func() { close(trafficStop); traffic.Wait() }()
+		traffic.Add(1)
+		go func(cc diam.Conn) {
+			defer traffic.Done()
+			period := c.r() / 3
+			for i := uint32(0); ; i++ {
+				select {
+				case <-trafficStop:
+					return
+				case <-time.After(period):
+				}
+				if closedNow, _ := mc.Closed(); closedNow {
+					return
+				}
+				if c.AppTraffic&1 != 0 {
+					mc.Feed(refcodec.EncodeMessage(refcodec.Header{Version: 1, Code: 272, App: 4, HopByHop: 0x9000 + i, EndToEnd: 0x9100 + i},
+						[]*refcodec.Node{{Code: 268, Flags: 0x40, Payload: refcodec.U32(2001)}, {Code: 264, Flags: 0x40, Payload: []byte("srv.example")}, {Code: 296, Flags: 0x40, Payload: []byte("example")}}, false))
+				}
+				if c.AppTraffic&2 != 0 {
+					mc.Feed(refcodec.EncodeMessage(refcodec.Header{Version: 1, Flags: 0x80, Code: 258, App: 0, HopByHop: 0xa000 + i, EndToEnd: 0xa100 + i},
+						[]*refcodec.Node{{Code: 264, Flags: 0x40, Payload: []byte("srv.example")}, {Code: 296, Flags: 0x40, Payload: []byte("example")}}, false))
+				}
+				if c.AppTraffic&4 != 0 {
+					rq := diam.NewRequest(272, 4, nil)
+					rq.NewAVP(avp.OriginHost, avp.Mbit, 0, datatype.DiameterIdentity(host))
+					rq.WriteTo(cc) // fails once the client has closed: that is the peer's business, not the watchdog's
+				}
+			}
+		}(r0.c)
+	}
 	for i := 0; i < c.PeerDWRs; i++ {
 		mc.Feed(refcodec.EncodeMessage(refcodec.Header{Version: 1, Flags: 0x80, Code: 280, HopByHop: uint32(0x7000 + i), EndToEnd: uint32(0x7100 + i)},
 			[]*refcodec.Node{{Code: 264, Flags: 0x40, Payload: []byte("srv.example")}, {Code: 296, Flags: 0x40, Payload: []byte("example")}}, false))
@@ -338,7 +381,7 @@ func runOnce(c Case) result {
 				if closed {
 					return result{timing: false, fail: ev.Failf("gave-up-early", "DWR %d was to be answered at transmission %d but the client closed after %d", d+1, p.AnswerAt, len(txs))}
 				}
-				return result{fail: ev.Failf("harness-observation", "DWR %d: only %d transmissions observed, answer planned at %d", d+1, len(txs), p.AnswerAt)}
+				return result{fail: ev.Failf("retransmission-missing", "DWR %d was transmitted %d times and not answered (the peer answers transmission %d only); the client neither retransmitted it nor closed the connection within the budget", d+1, len(txs), p.AnswerAt)}
 			}
 			prevAckEnd = txs[p.AnswerAt-1].end
 			lastOfAll := d == len(obs)-1
@@ -430,6 +473,9 @@ func genCase(t *rapid.T) Case {
 	if rapid.IntRange(0, 2).Draw(t, "peer-dwrs") == 0 {
 		c.PeerDWRs = rapid.IntRange(1, 3).Draw(t, "n-peer-dwrs")
 	}
+	if rapid.IntRange(0, 2).Draw(t, "app-traffic") == 0 {
+		c.AppTraffic = rapid.IntRange(1, 7).Draw(t, "app-traffic-kinds")
+	}
 	n := rapid.IntRange(1, 3).Draw(t, "dwrs")
 	for i := 0; i < n; i++ {
 		var p Plan
@@ -460,6 +506,16 @@ func classify(c Case) (bool, []string) {
 	cl := []string{fmt.Sprintf("budget:%d", c.MaxRetransmits+1)}
 	if c.PeerDWRs > 0 {
 		cl = append(cl, "peer-sends-watchdog-requests-too")
+	}
+	if c.AppTraffic != 0 {
+		cl = append(cl, "application-traffic-meanwhile")
+		silent := false
+		for _, p := range c.Plans {
+			silent = silent || p.AnswerAt == 0
+		}
+		if silent {
+			cl = append(cl, "application-traffic-while-watchdog-unanswered")
+		}
 	}
 	if c.CEAAt > 1 {
 		cl = append(cl, "slow-handshake")
@@ -494,7 +550,7 @@ func classify(c Case) (bool, []string) {
 
 var prop = ev.Register(&ev.Prop[Case]{
 	ID: "C13", Name: "watchdog",
-	Rule: "sm.Client with the watchdog enabled (WatchdogInterval 25..45 ms, RetransmitInterval 30..50 ms, MaxRetransmits 0..3) against a scripted peer that answers the first or (1 in 4) only the j-th transmission of the CER, so that the handshake outlasts the WatchdogInterval; per fresh DWR a plan {answer the j-th transmission with success, answer with a failing Result-Code, never answer} and an answer timing {before the client's Write returns, right after, after a quarter interval}; 1 in 3 cases the peer sends 1..3 watchdog requests of its own right after the handshake; asserted: the peer's requests are answered with its identifiers, no DWR before the CEA was delivered, identity in every DWR, fresh DWRs >= WatchdogInterval after the previous acknowledgement, retransmissions byte-identical and >= RetransmitInterval apart, a silent peer gets exactly MaxRetransmits+1 transmissions and is then closed with nothing sent afterwards, a peer answering with success in time is never closed and sees a further DWR; every case is distinct and non-trivial (each exercises at least one full watchdog round); mismatches that a scheduling delay could explain must reproduce 3 times",
+	Rule: "sm.Client with the watchdog enabled (WatchdogInterval 25..45 ms, RetransmitInterval 30..50 ms, MaxRetransmits 0..3) against a scripted peer that answers the first or (1 in 4) only the j-th transmission of the CER, so that the handshake outlasts the WatchdogInterval; per fresh DWR a plan {answer the j-th transmission with success, answer with a failing Result-Code, never answer} and an answer timing {before the client's Write returns, right after, after a quarter interval}; 1 in 3 cases the peer sends 1..3 watchdog requests of its own right after the handshake; 1 in 3 cases application traffic goes on meanwhile (unsolicited success CCAs from the peer, RARs from the peer answered by a handler of the client, CCRs written by the client application - none of it answers a DWR); asserted: the peer's requests are answered with its identifiers, no DWR before the CEA was delivered, identity in every DWR, fresh DWRs >= WatchdogInterval after the previous acknowledgement, retransmissions byte-identical and >= RetransmitInterval apart, a silent peer gets exactly MaxRetransmits+1 transmissions and is then closed with nothing sent afterwards, a peer answering with success in time is never closed and sees a further DWR; every case is distinct and non-trivial (each exercises at least one full watchdog round); mismatches that a scheduling delay could explain must reproduce 3 times",
 	Gen:  genCase, Run: runCase, Classify: classify, Attempts: 2,
 })
 
